@@ -259,6 +259,81 @@ def tr_split_site(fn, site, ty_expr, call_name="call"):
             f"  let n := length (type_to_row output) in ({slices['regular']}, {slices['inout']}).\n")
 
 
+# ---------------------------------------------------------------------------------------
+# ExprCompiler._update_inout_ports: a for loop, translated statement by statement into a
+# step function over (store, remaining ports).  Primitive effects are section variables.
+
+def tr_update_inout_ports(mod):
+    fn = find_func(find_class(mod, "ExprCompiler"), "_update_inout_ports")
+    if [a.arg for a in fn.args.args] != ["self", "args", "inout_ports", "func_ty"]:
+        fail(fn, "signature changed")
+    body = strip_doc(fn.body)
+    if len(body) != 2 or not isinstance(body[0], ast.For) or not isinstance(body[1], ast.Assert):
+        fail(fn, "expected `for inp, arg in zip(...): ...` followed by the exhaustion assert")
+    loop, fin = body
+    if ast.unparse(loop.target) != "(inp, arg)" or ast.unparse(loop.iter) != "zip(func_ty.inputs, args, strict=True)" or loop.orelse:
+        fail(loop, "loop header changed")
+    if ast.unparse(fin.test) != "next(inout_ports, None) is None":
+        fail(fin, "final assert changed")
+
+    END = "Some (s, ports)"
+
+    def stmts(ss, rest, env):
+        """ss executed, then `rest` (a Coq term using s, ports)"""
+        if not ss:
+            return rest
+        st, tail = ss[0], ss[1:]
+        txt = ast.unparse(st)
+        if isinstance(st, ast.Continue):
+            return END
+        if txt == "next(inout_ports)":
+            return f"match ports with [] => None | _ :: ports => {stmts(tail, rest, env)} end"
+        if txt == "self.dfg[arg.place] = next(inout_ports)":
+            if not env.get("place"):
+                fail(st, "arg.place used where arg is not known to be a PlaceNode")
+            return f"match ports with [] => None | w :: ports => let s := assign_leaf p w s in {stmts(tail, rest, env)} end"
+        if isinstance(st, ast.Assert) and txt == "assert subscript.setitem_call is not None" and env.get("sub"):
+            return stmts(tail, rest, env)
+        if txt == "self.dfg[subscript.setitem_call.value_var] = self.dfg[subscript]" and env.get("sub"):
+            return f"let s := set_value_var sub s in {stmts(tail, rest, env)}"
+        if txt == "self.visit(subscript.setitem_call.call)" and env.get("sub"):
+            return f"let s := visit_setitem sub s in {stmts(tail, rest, env)}"
+        if isinstance(st, ast.If) and not st.orelse:
+            c = ast.unparse(st.test)
+            if c == "not isinstance(arg, PlaceNode)":
+                if env.get("place"):
+                    fail(st, "nested place test")
+                # the branch ends with `continue` (checked below), so the code after it runs only for places
+                return (f"(match a with AExpr => {stmts(st.body, END, env)} "
+                        f"| APlace p => {stmts(tail, rest, dict(env, place=True))} end)")
+            after = stmts(tail, rest, env)
+            if c == "InputFlags.Inout in inp.flags":
+                return f"(if fl_inout (fi_flags inp) then {stmts(st.body, after, env)} else {after})"
+            if c == "(subscript := contains_subscript(arg.place))" and env.get("place"):
+                return (f"(match contains_sub p with Some sub => {stmts(st.body, after, dict(env, sub=True))} "
+                        f"| None => {after} end)")
+        fail(st, "_update_inout_ports: unknown statement")
+
+    def check_terminates(ss):
+        # `if not isinstance(arg, PlaceNode)` must end with continue, otherwise the code after it would
+        # run with arg not a place (our translation of the APlace branch assumes it does not)
+        for st in ss:
+            if isinstance(st, ast.If):
+                if ast.unparse(st.test) == "not isinstance(arg, PlaceNode)" and not (st.body and isinstance(st.body[-1], ast.Continue)):
+                    fail(st, "the non-place branch must end with `continue`")
+                check_terminates(st.body)
+    check_terminates(loop.body)
+    step = stmts(loop.body, END, {})
+    return ("Definition upd_step (inp : FuncInput T) (a : arg P) (s : St) (ports : list W) : option (St * list W) :=\n"
+            f"  {step}.\n\n"
+            "Fixpoint upd_loop (zs : list (FuncInput T * arg P)) (s : St) (ports : list W) : option (St * list W) :=\n"
+            "  match zs with\n  | [] => Some (s, ports)\n"
+            "  | (inp, a) :: zs' => match upd_step inp a s ports with Some (s', ports') => upd_loop zs' s' ports' | None => None end\n  end.\n\n"
+            "Definition gen_update_inout_ports (inputs : list (FuncInput T)) (args : list (arg P)) (ports : list W) (s : St) : option St :=\n"
+            "  match zip_strict inputs args with\n  | None => None\n"
+            "  | Some zs => match upd_loop zs s ports with Some (s', []) => Some s' | _ => None end\n  end.\n")
+
+
 def translate(ctx) -> str:
     ty = parse_file(ctx.int_src("tys/ty.py"))
     ec = parse_file(ctx.int_src("compiler/expr_compiler.py"))
@@ -270,7 +345,7 @@ def translate(ctx) -> str:
     excls = find_class(ec, "ExprCompiler")
     out = [HEADER.format(src="tys/ty.py, compiler/expr_compiler.py, checker/func_checker.py, compiler/cfg_compiler.py, definition/{function,traced}.py",
                          tool="props/C07/tr_functy.py"),
-           "From Coq Require Import List Bool Arith.\nFrom V.C07 Require Import ModelBase.\nImport ListNotations.\n",
+           "From Coq Require Import List Bool Arith.\nFrom V.C07 Require Import ModelBase ModelCall.\nImport ListNotations.\n",
            "Section Gen.\n(* T: guppy types; H: hugr types; A: argument expressions / names; W: wires *)\n"
            "Variables T H A W : Type.\nVariable to_hugr : T -> H.\nVariable type_to_row : T -> list T.\nVariable visit : A -> W.\n",
            tr_to_hugr_function_type(ty), tr_compile_call_args(ec), tr_inout_var_names(fc), tr_insert_return_vars(cc),
@@ -278,5 +353,10 @@ def translate(ctx) -> str:
            tr_split_site(find_func(excls, "_compile_tensor_with_leftovers"), "tensor_call", "func_ty"),
            tr_split_site(find_func(df, "compile_call"), "global_call", "ty"),
            tr_split_site(find_func(find_class(dt, "CompiledTracedFunctionDef"), "compile_call"), "traced_call", "self.ty"),
-           "End Gen.\n"]
+           "End Gen.\n",
+           "Section GenUpd.\n(* P: places; Sub: subscript places; St: the DFContainer; W: wires *)\n"
+           "Variables T P Sub W St : Type.\nVariable assign_leaf : P -> W -> St -> St.\nVariable contains_sub : P -> option Sub.\n"
+           "Variable set_value_var : Sub -> St -> St.\nVariable visit_setitem : Sub -> St -> St.\n",
+           tr_update_inout_ports(ec),
+           "End GenUpd.\n"]
     return "\n".join(out)
